@@ -307,6 +307,10 @@ def buff_skel(repo):
     fn = find_func(tree, "buffiter")
     b = _body(fn)
     shape_text = func_shape(fn)
+    # repaired shape: after `it = iter(obj)` a local iterator (object iterable only through __getitem__) is simply drained
+    LOCAL_FALLBACK = "if not isinstance(it, BaseNetref):\n    for elem in it:\n        yield elem\n    return"
+    if len(b) == 5 and _u(b[2]) == LOCAL_FALLBACK:
+        b = b[:2] + b[3:]
     if [a.arg for a in fn.args.args] != ["obj", "chunk", "max_chunk", "factor"] or len(b) != 4:
         raise Unrecognised("buffiter")
     guard = isinstance(b[0], ast.If) and _u(b[0].test) == "factor < 1" and len(b[0].body) == 1 and isinstance(b[0].body[0], ast.Raise) \
